@@ -365,7 +365,7 @@ def callee(t):
 
 def callee_names(t):
     out = []
-    for k in ("res", "fn", "fnargs"):
+    for k in ("res", "fn", "fnargs", "xfn"):
         if k in t:
             out.append(t[k])
     return out
@@ -481,7 +481,7 @@ class Program:
 
     def local_callee(self, fn, t):
         """Fn object for a call terminator's callee if it is a function of the same program."""
-        for k in ("res", "fn"):
+        for k in ("xfn", "res", "fn"):
             p = t.get(k)
             if not p:
                 continue
@@ -501,6 +501,11 @@ class Program:
         """id -> set of callee ids (direct calls, closure/coroutine construction, fn-item references)."""
         if self._cg is None:
             cg = {}
+            impls = {}
+            for f in self.fns.values():
+                ti = f.d.get("implements")
+                if ti:
+                    impls.setdefault(ti, []).append(f.id)
             for f in self.fns.values():
                 s = set()
                 for _, t in f.calls(reachable_only=False):
@@ -509,6 +514,13 @@ class Program:
                         s.add(c.id)
                     else:
                         s.add("ext:" + callee(t))
+                        # unresolved trait-method call (dyn / generic): may dispatch to any local impl
+                        for k in ("xfn", "fn"):
+                            q = t.get(k, "")
+                            if q.startswith("redis_sim::"):
+                                q = q[len("redis_sim::"):]
+                            for iid in impls.get(q, ()):
+                                s.add(iid)
                     # function items passed as arguments
                     for a in t["args"]:
                         if "fn" in a:
